@@ -192,6 +192,39 @@ example : ∃ out, Model.KeyForms.kdfDeriveImpl 32 7 (zeros 8) (zeros 32) = .ok 
   have h := kdfDeriveImpl_eq_spec 32 7 (zeros 8) (zeros 32) (by decide) (by decide) (by decide)
   exact ⟨_, h, kdfDeriveImpl_length 32 7 _ _ _ (by decide) (by decide) h⟩
 
+set_option maxRecDepth 100000 in
+/-- TEST — a known answer evaluated in the kernel (not a theorem about all inputs): **the first line of libsodium's
+`test/default/kdf.exp`** (master key `00 01 … 1f`, context `"KDF test"`, sub-key id 0, 64 bytes), computed by the CODE
+PATH `kdfDeriveImpl`, i.e. through the model of dryoc's own BLAKE2b `State::init(64, Some(key), Some(salt),
+Some(ctx_padded))` / `finalize` (key block, salt and personalisation words, final compression all exercised).  A model
+that mis-placed the id or the context in the parameter block, or used another key length, would fail here
+independently of the equivalence theorems above. -/
+theorem kdf_libsodium_vector :
+    Model.KeyForms.kdfDeriveImpl 64 0 [0x4b,0x44,0x46,0x20,0x74,0x65,0x73,0x74]
+      [0,1,2,3,4,5,6,7,8,9,10,11,12,13,14,15,16,17,18,19,20,21,22,23,24,25,26,27,28,29,30,31] = .ok
+      [0xa0,0xc7,0x24,0x40,0x47,0x28,0xc8,0xbb,0x95,0xe5,0x43,0x3e,0xb6,0xa9,0x71,0x61,
+       0x71,0x14,0x4d,0x61,0xef,0xb2,0x3e,0x74,0xb8,0x73,0xfc,0xbe,0xda,0x51,0xd8,0x07,
+       0x1b,0x5d,0x70,0xaa,0xe1,0x20,0x66,0xdf,0xc9,0x4c,0xe9,0x43,0xf1,0x45,0xaa,0x17,
+       0x6c,0x05,0x50,0x40,0xc3,0xdd,0x73,0xb0,0xa1,0x5e,0x36,0x25,0x4d,0x45,0x06,0x14] := by
+  decide +kernel
+
+/-- … hence (by `kdfDeriveImpl_eq_spec`) the RFC 7693 function `Spec.Blake2b.hashSP` with salt `LE64(id) ‖ 0⁸` and
+personalisation `ctx ‖ 0⁸` takes the libsodium value on that input -/
+example :
+    Spec.Blake2b.hashSP 64
+      [0,1,2,3,4,5,6,7,8,9,10,11,12,13,14,15,16,17,18,19,20,21,22,23,24,25,26,27,28,29,30,31]
+      (toLE 8 0 ++ zeros 8) ([0x4b,0x44,0x46,0x20,0x74,0x65,0x73,0x74] ++ zeros 8)
+      [] =
+      [0xa0,0xc7,0x24,0x40,0x47,0x28,0xc8,0xbb,0x95,0xe5,0x43,0x3e,0xb6,0xa9,0x71,0x61,
+       0x71,0x14,0x4d,0x61,0xef,0xb2,0x3e,0x74,0xb8,0x73,0xfc,0xbe,0xda,0x51,0xd8,0x07,
+       0x1b,0x5d,0x70,0xaa,0xe1,0x20,0x66,0xdf,0xc9,0x4c,0xe9,0x43,0xf1,0x45,0xaa,0x17,
+       0x6c,0x05,0x50,0x40,0xc3,0xdd,0x73,0xb0,0xa1,0x5e,0x36,0x25,0x4d,0x45,0x06,0x14] := by
+  have h := kdfDeriveImpl_eq_spec 64 0 [0x4b,0x44,0x46,0x20,0x74,0x65,0x73,0x74]
+    [0,1,2,3,4,5,6,7,8,9,10,11,12,13,14,15,16,17,18,19,20,21,22,23,24,25,26,27,28,29,30,31]
+    (by decide) (by decide) (by decide)
+  rw [kdf_libsodium_vector] at h
+  exact (Outcome.ok.inj h).symm
+
 /-! ### non-vacuity -/
 
 example : kdfDerive specPrims 15 0 (zeros 8) (zeros 32) = .err := by decide
